@@ -109,7 +109,7 @@ def run_with_fault(cfg, fault, procs=1, mp=False):
         signal.alarm(0)
         signal.signal(signal.SIGALRM, old)
     r["wall"] = time.time() - t0
-    r["children_after"] = len(multiprocessing.active_children())
+    r["children_after"] = max(len(multiprocessing.active_children()), r.get("children_at_raise", 0))
     os.environ.pop("CUPCAKE_ENABLE_MULTIPROCESSING", None)
     return r
 
